@@ -181,7 +181,9 @@ def ensure(flavour, quiet=False):
             olds = sorted((d for d in os.listdir(fdir) if d != ".lock"),
                           key=lambda d: os.path.getmtime(os.path.join(fdir, d)), reverse=True)
             for d in olds[2:]:
-                shutil.rmtree(os.path.join(fdir, d), ignore_errors=True)
+                # (a build that was used in the last half hour may belong to a check that is still running against another tree)
+                if time.time() - os.path.getmtime(os.path.join(fdir, d)) > 1800:
+                    shutil.rmtree(os.path.join(fdir, d), ignore_errors=True)
             if not quiet:
                 print("[build] %s flavour from %s -> %s" % (flavour, repo, out), file=sys.stderr, flush=True)
             t0 = time.time()
